@@ -23,8 +23,9 @@
      copy of a queued record change nothing but the order and multiplicity of the entries of the
      next ACK, and acknowledging is idempotent and order-independent; an ACK is therefore compared
      with the implementation as the set of fragments it acknowledges;
-   - delivering the same datagram instance twice is inert (record replay window, C06): the timed
-     system ignores the second delivery.
+   - a second delivery of the same datagram instance: its protected records are inert (record
+     replay window, C06), its unprotected records are processed again (the epoch-0 window is
+     never moved by unauthenticated records).
    Numbers are N (milliseconds for time).  Definitions only. *)
 From Coq Require Import List NArith Bool.
 Import ListNotations.
@@ -390,7 +391,10 @@ Definition parse (c : cfg) (e : ep) : ep * N :=
 
 Definition cap60 (i : N) : N := if 60000 <? i then 60000 else i.
 (* fsm.go handleRetransmitTimeout on the interval *)
-Definition bump (c : cfg) (i : N) : N := cap60 (if c_backoff c then 2 * i else i).
+(* the interval doubles only while below 60 s (above 30 s it becomes 60 s); an interval configured at
+   or above the cap is left as it is, with and without backoff *)
+Definition bump (c : cfg) (i : N) : N :=
+  if c_backoff c && (i <? 60000) then (if 30000 <? i then 60000 else 2 * i) else i.
 
 Definition tracked_frags (c : cfg) (f : N) (rs : list rec) : list frag :=
   if fl_retransmit c f then
@@ -454,6 +458,10 @@ Definition after_ack (c : cfg) (e : ep) (empty progress peer : bool) (now : N) :
     if fl_last_send c (e_flight e1) then to_finished c e1 now else (e1, [])
   else if peer && e_reply e then
     if 2 * (now - e_lastsent e) <? c_initial c then (e, []) else do_send c e now
+  else if peer && negb empty && negb progress && (2 * (now - e_lastsent e) <? c_initial c) then
+    (* the flight has just been sent: a repetition by the peer that acknowledges nothing is not
+       answered (no zero-delay ping-pong); the timer still retransmits *)
+    (e, [])
   else if empty || progress || peer then
     if e_retr e then do_send c (set_interval e (bump c (e_interval e))) now else (e, [])
   else (e, []).
@@ -462,8 +470,20 @@ Definition after_ack (c : cfg) (e : ep) (empty progress peer : bool) (now : N) :
 Fixpoint consume_nst (fuel : nat) (e : ep) : ep :=
   match fuel with
   | O => e
-  | S fuel' => if has e (e_recvseq e) HT_NST 3 then consume_nst fuel' (set_recvseq e (e_recvseq e + 1)) else e
+  | S fuel' =>
+      if has e (e_recvseq e) HT_NST 3 then
+        (* handled, then forgotten (Cache.Remove) *)
+        let e1 := set_rx e (e_recvseq e + 1) (e_fbcur e) (e_frags e)
+                         (filter (fun x => let '(m, _, _) := x in negb (N.eqb m (e_recvseq e))) (e_cache e))
+                         (e_repoch e) (e_lepoch e) (e_queue e) (e_toack e) in
+        consume_nst fuel' e1
+      else e
   end.
+
+(* fsm13.hasPostHandshakeMessage: the next message expected from the peer is in the cache and came
+   under the application traffic keys *)
+Definition has_post (e : ep) : bool :=
+  existsb (fun x => let '(m, _, ep0) := x in N.eqb m (e_recvseq e) && (3 <=? ep0)) (e_cache e).
 
 Definition post_receive (c : cfg) (e : ep) (hs : bool) (acks : list (list frag)) (rta : list frag) : ep * list dgram :=
   let all := concat acks in
@@ -481,12 +501,16 @@ Definition on_event (c : cfg) (e : ep) (hs retr : bool) (acks : list (list frag)
   | Waiting =>
       let e1 := if retr then e else set_interval e (c_initial c) in
       let '(e2, empty, progress) := acknowledge e1 acks in
-      if negb hs then after_ack c e2 empty progress false now
-      else if retr && fl_last_send c (e_flight e2) then
+      if negb hs && negb (match acks with [] => true | _ => false end) then after_ack c e2 empty progress false now
+      else if hs && retr && fl_last_send c (e_flight e2) then
         (* handlePreviousFlightRetransmit *)
         let '(e3, o3) := after_ack c e2 empty progress true now in
         (e3, ack_dgram (e_lepoch e2) rta ++ o3)
-      else if e_client e2 && fl_last_send c (e_flight e2) then
+      else if hs && e_client e2 && fl_last_send c (e_flight e2) && negb (has_post e2) then
+        (* anybody can send an unprotected fragment: it is acknowledged (if protected) and the final flight stays
+           unacknowledged *)
+        (e2, ack_dgram (e_lepoch e2) rta)
+      else if hs && e_client e2 && fl_last_send c (e_flight e2) then
         (* handleImplicitFinalACK *)
         let e3 := set_fsm e2 (e_flight e2) Waiting false (e_reply e2) (e_lastsent e2) (e_interval e2) (e_timer e2)
                           (e_out e2) [] (e_est e2) in
@@ -596,12 +620,15 @@ Fixpoint advance (fuel : nat) (c : cfg) (s : sys) (T : N) : sys :=
   end.
 
 (* at time T the network delivers the k-th datagram emitted by the client (to the server) or by
-   the server (to the client); a second delivery of the same datagram is inert *)
+   the server (to the client); of a second delivery of the same datagram only the unprotected records count *)
 Inductive move :=
 | Deliver (from_client : bool) (k : N) (T : N)
 | Inject (to_client : bool) (d : dgram) (T : N).   (* a datagram no endpoint sent (forged, unprotected) *)
 
 Definition nmem (k : N) (l : list N) : bool := existsb (N.eqb k) l.
+(* a second copy of a datagram instance: the epoch-0 window is never moved, so its unprotected records
+   are processed again; its protected records are replays (or already sit in the queue) *)
+Definition unprotected (d : dgram) : dgram := filter (fun r => N.eqb (r_ep r) 0) d.
 
 Definition do_move (c : cfg) (s0 : sys) (m : move) : option sys :=
   match m with
@@ -611,7 +638,7 @@ Definition do_move (c : cfg) (s0 : sys) (m : move) : option sys :=
         match nth_error (s_cout s) (N.to_nat k) with
         | None => None
         | Some (_, d) =>
-            if nmem k (s_cseen s) then Some s else
+            let d := if nmem k (s_cseen s) then unprotected d else d in
             let '(e', out) := on_datagram c (s_s s) d T in
             Some {| s_c := s_c s; s_s := e'; s_cout := s_cout s; s_sout := s_sout s ++ stamp T out;
                     s_cseen := k :: s_cseen s; s_sseen := s_sseen s |}
@@ -620,7 +647,7 @@ Definition do_move (c : cfg) (s0 : sys) (m : move) : option sys :=
         match nth_error (s_sout s) (N.to_nat k) with
         | None => None
         | Some (_, d) =>
-            if nmem k (s_sseen s) then Some s else
+            let d := if nmem k (s_sseen s) then unprotected d else d in
             let '(e', out) := on_datagram c (s_c s) d T in
             Some {| s_c := e'; s_s := s_s s; s_cout := s_cout s ++ stamp T out; s_sout := s_sout s;
                     s_cseen := s_cseen s; s_sseen := k :: s_sseen s |}
